@@ -630,10 +630,11 @@ def getPath : JV N → List Comp → Option (JV N)
   | v, c :: r => (getStep1 v c).bind (getPath · r)
 
 /-- law about the number carrier, needed for the index components of a path only: the program
-literal `toString i` denotes the integer `i` -/
+literal `toString i` is a number whose array index (`idxOf`: not NaN, `floor`, `toInt?` — what
+`JV.getStep` uses) is the integer `i` -/
 def IdxOK (N : Type) [NumOps N] (c : Comp) : Prop :=
   match c with
-  | .index i => ∃ n : N, NumOps.ofLit (toString i) = some n ∧ NumOps.toInt? n = some (i : Int)
+  | .index i => ∃ n : N, NumOps.ofLit (toString i) = some n ∧ idxOf n = some (some (i : Int))
   | _ => True
 
 theorem eval_identity (d : Dialect) (f : Nat) (env : Env N) (v : JV N) :
@@ -664,11 +665,16 @@ theorem indexValue_obj (fs : List (String × JV N)) (s : String) (x : JV N)
   simp [indexValue, JV.getStep, liftExc, h]
 
 theorem indexValue_arr (xs : List (JV N)) (n : N) (i : Nat) (x : JV N)
-    (hn : NumOps.toInt? n = some (i : Int)) (h : xs[i]? = some x) :
+    (hn : idxOf n = some (some (i : Int))) (h : xs[i]? = some x) :
     indexValue (.arr xs) (.num n) = some [.val x .off] := by
   have hr : resolveIdx (i : Int) xs.length = some i := by
     simp [resolveIdx]
-  simp [indexValue, JV.getStep, liftExc, hn, hr, List.getD, h]
+  have hg : JV.getStep (.arr xs) (.num n) = .ok x := by
+    rw [JV.getStep.eq_def]
+    simp only [hn, hr, List.getD, h, Option.getD_some]
+  show liftExc .off (JV.getStep (.arr xs) (.num n)) = _
+  rw [hg]
+  rfl
 
 /-- the key expression of a component evaluates to the key value; one step of `getPath` is one
 `indexValue` -/
